@@ -232,6 +232,78 @@ fn parse_tokenizers(data: &[u8]) -> Option<Vec<Src>> {
     Some(out)
 }
 
+/// The parsed fields of a Tokenizers JSON source for the Lean model of the converter's vocabulary path
+/// (`HFA` / `HFV` / `HFM` lines) and the `CONVHF` request. `None`: not expressible (duplicate ids among
+/// ordinary tokens make the converter's order depend on hash iteration) or an unsupported model kind.
+fn hf_model_lines(slot: usize, data: &[u8], lines: &mut Vec<String>) -> Option<()> {
+    let v: Value = serde_json::from_slice(data).ok()?;
+    let model = &v["model"];
+    let ty = model["type"].as_str().map(|s| s.to_string()).unwrap_or_else(|| if model.get("merges").is_some() { "BPE".into() } else if model["vocab"].is_array() { "Unigram".into() } else { "WordPiece".into() });
+    let byte_chars = has_type(&v["pre_tokenizer"], "ByteLevel");
+    let byte_runes = model["byte_fallback"].as_bool().unwrap_or(false) || has_type(&v["decoder"], "ByteFallback");
+    let mut out = Vec::new();
+    let mut added_texts = std::collections::HashSet::new();
+    if let Some(added) = v["added_tokens"].as_array() {
+        for a in added {
+            let content = a["content"].as_str()?;
+            added_texts.insert(content.to_string());
+            out.push(format!(
+                "HFA {} {} {} {} {}",
+                slot,
+                a["id"].as_u64()?,
+                hex(content.as_bytes()),
+                a["special"].as_bool().unwrap_or(false) as u8,
+                a["normalized"].as_bool().unwrap_or(false) as u8
+            ));
+        }
+    }
+    // the list-based model is quadratic in the vocabulary size: small sources only (the large shipped ones
+    // are judged by KEEPS)
+    let n = model["vocab"].as_object().map(|m| m.len()).or_else(|| model["vocab"].as_array().map(|a| a.len())).unwrap_or(0);
+    if n > 3000 {
+        return None;
+    }
+    let mut ids = std::collections::HashSet::new();
+    let (kind, unk) = match ty.as_str() {
+        "BPE" | "WordPiece" => {
+            for (text, id) in model["vocab"].as_object()? {
+                let id = id.as_u64()?;
+                if !added_texts.contains(text) && !ids.insert(id) {
+                    return None;
+                }
+                out.push(format!("HFV {} {} {} 0", slot, hex(text.as_bytes()), id));
+            }
+            if ty == "BPE" {
+                for m in model["merges"].as_array()? {
+                    let joined = match m {
+                        Value::String(s) => {
+                            let mut it = s.splitn(2, ' ');
+                            format!("{}{}", it.next()?, it.next()?)
+                        }
+                        Value::Array(a) => format!("{}{}", a.first()?.as_str()?, a.get(1)?.as_str()?),
+                        _ => return None,
+                    };
+                    out.push(format!("HFM {} {}", slot, hex(joined.as_bytes())));
+                }
+                ("bpe", model["unk_token"].as_str().map(|u| hex(u.as_bytes())).unwrap_or("-".into()))
+            } else {
+                ("wordpiece", hex(model["unk_token"].as_str()?.as_bytes()))
+            }
+        }
+        "Unigram" => {
+            for e in model["vocab"].as_array()? {
+                let score = e.get(1)?.as_f64()? as f32;
+                out.push(format!("HFV {} {} 0 {}", slot, hex(e.get(0)?.as_str()?.as_bytes()), score.to_bits()));
+            }
+            ("unigram", model["unk_id"].as_u64().map(|u| u.to_string()).unwrap_or("-".into()))
+        }
+        _ => return None,
+    };
+    lines.extend(out);
+    lines.push(format!("CONVHF {} {} {} {} {} :: OK", slot, kind, unk, byte_chars as u8, byte_runes as u8));
+    Some(())
+}
+
 fn src_lines(slot: usize, src: &[Src], lines: &mut Vec<String>) {
     for s in src {
         lines.push(format!(
@@ -304,6 +376,13 @@ fn source_case(slot: &mut usize, fmt: &str, name: &str, data: &[u8], out: &mut S
         }
         None => {
             lines.push(format!("IMPLEQ independent-parse {} {} :: DIFF the converter accepts a source that the independent parser cannot read", fmt, name));
+        }
+    }
+    if fmt == "tokenizers" {
+        if hf_model_lines(this, data, &mut lines).is_some() {
+            out.count("tokenizers_sources_through_the_model");
+        } else {
+            out.count("tokenizers_sources_not_expressible");
         }
     }
     if fmt == "tekken" {
@@ -410,7 +489,7 @@ pub fn gen(rng: &mut Rng, thorough: bool, out: &mut Sink) {
             out.push(bytepiece_line(&format!("<0x{:02x}>", b)));
         }
     }
-    for t in ["<0x4", "<0x", "", "<0xZZ>", "<0x4G>", "<0xG4>", "<0x 4>", "<0xé>", "<0x€>", "é0x41>", "<0x414>", "abc41>"] {
+    for t in ["<0x+F>", "<0x+G>", "<0x++>", "<0xF+>", "<0x-1>", "<0x4", "<0x", "", "<0xZZ>", "<0x4G>", "<0xG4>", "<0x 4>", "<0xé>", "<0x€>", "é0x41>", "<0x414>", "abc41>"] {
         out.push(bytepiece_line(t));
     }
     let mut slot = 0usize;
